@@ -35,8 +35,8 @@ P["C04"]={"level":"proof","design_ref":"6 C04",
  "only":["snaps\\.(removeSnapshot|overwriteFile|updateSnapshot|upsertStandaloneSnapshot)#","#ensures#(updated|updated_lookup|updated_others|equal_nowrite|replay|created|mismatch)","#pre\\((updateSnapshot|upsertStandaloneSnapshot)\\)","#vacuity"],
  "explanation":"updateSnapshot rewrites the file to exactly: tokens before and including the header, the new body, the terminator, the tokens after the old terminator (postcondition content = updShape, proved from the loop invariant over the real scanner/buffer code and overwriteFile's Truncate+Seek+Write); lemmas U_own, U_wf, U_other_* turn that into: the slot replays the new value, every other slot keeps found/body, well-formedness is kept. In the match* bodies an equal value returns before any write (equal_nowrite) and an update stores exactly the new formatted value (updated_lookup); standalone files are replaced wholesale. Restricted by uniqueHdr/lacks/apart (K2 class)."}
 P["C05"]={"level":"proof","design_ref":"6 C05",
- "funcs":["snaps.shouldUpdate","snaps.shouldCreate"]+bodies+wrappers,
- "only":["snaps\\.should","#ensures#(ci|missing_ro|created|updated|mismatch|replay|equal_nowrite|nocall|invalid|matcher_errors)","#pre\\((addNewSnapshot|updateSnapshot|upsertStandaloneSnapshot)\\)","#vacuity","#frame#fs"],
+ "funcs":["snaps.shouldUpdate","snaps.shouldCreate"]+bodies+wrappers+["snaps.examineFiles","snaps.examineSnaps","snaps.Clean"],
+ "only":["snaps\\.should","snaps\\.Clean#","#ensures#(report_only|protected|noop)","#ensures#(ci|missing_ro|created|updated|mismatch|replay|equal_nowrite|nocall|invalid|matcher_errors)","#pre\\((addNewSnapshot|updateSnapshot|upsertStandaloneSnapshot)\\)","#vacuity","#frame#fs"],
  "explanation":"Mode table proved symbolically (CI, Update option and UPDATE_SNAPS are symbolic): shouldUpdate/shouldCreate equal the table of the statement; in all five match* bodies and their ten exported wrappers every write is dominated by the right gate (postconditions ci, missing_ro, created, updated, mismatch), for all cells at once. The Clean half of the statement is decided under C09."}
 P["C06"]={"level":"other","design_ref":"5, 6 C06",
  "funcs":["snaps.getPrevSnapshot","snaps.addNewSnapshot"]+registry+standalone[2:]+["snaps.(*events).register"]+bodies,
@@ -54,16 +54,38 @@ P["C19"]={"level":"proof","design_ref":"6 C19",
  "funcs":standalone+["snaps.matchStandaloneSnapshot","snaps.matchStandaloneJSON","snaps.matchStandaloneSnapshot$1","snaps.matchStandaloneJSON$1"],
  "explanation":"Standalone content is an opaque byte string: upsertStandaloneSnapshot makes the file content equal the formatted value, getPrevStandaloneSnapshot returns it unchanged, the k-th call maps to file subst(generic,k), creation and update store exactly the formatted value (postconditions created/updated), equal content passes without writing."}
 P["C20"]={"level":"proof","design_ref":"6 C20",
- "funcs":["snaps.handleError","snaps.(*events).register"]+bodies,
- "only":["snaps\\.handleError","register","#ensures#(one_outcome|nocall|replay|mismatch|missing_ro|invalid|matcher_errors)","#vacuity"],
+ "funcs":["snaps.handleError","snaps.(*events).register","snaps.printEvent","snaps.summary$1","snaps.summary","snaps.trackSkip"]+bodies,
+ "only":["snaps\\.handleError","register","snaps\\.(printEvent|summary|trackSkip)","#ensures#(one_outcome|nocall|replay|mismatch|missing_ro|invalid|matcher_errors)","#vacuity"],
  "explanation":"Exactly one outcome per call: postcondition one_outcome of every match* body over the ghost counters of the testingT (Error/Log calls) and the event counters, on every path; handleError is one Error plus one register(erred); register increments exactly one counter under its mutex. The summary half of the statement is not yet under contract."}
+cleanf=["snaps.isNumber","snaps.getTestID","snaps.snapshotOccurrenceFMT","snaps.standaloneOccurrenceFMT","snaps.naturalSort","snaps.set.Has","snaps.occurrences","snaps.examineFiles","snaps.removeSnapshot","snaps.overwriteFile","snaps.examineSnaps","snaps.Clean"]
+skipf=["snaps.(*syncSlice).append","snaps.trackSkip","snaps.Skip","snaps.Skipf","snaps.SkipNow","snaps.testSkipped","snaps.isFileSkipped"]
+P["C07"]={"level":"proof","design_ref":"6 C07",
+ "funcs":registry+standalone[2:]+cleanf,
+ "only":["#ensures#(count|cleanup|covers|last|protected|content_kept|obsolete_sound|used_sound|registered_files_kept|nonsnap|only_used)","snaps\\.(occurrences|examineFiles|set\\.Has|snapshotOccurrenceFMT|standaloneOccurrenceFMT)#","no_drop_without_update","#vacuity"],
+ "assumptions":["-test.count >= 1 whenever a registry is non-empty (precondition testCount() >= 1 of Clean)","H_det for -count>1: every execution of a test makes the same number of calls on a file (without it: known finding K6)","test names start with `Test` (without it: known finding K5)"],
+ "explanation":"Every slot handed out by a registry is counted in cleanup (registry contracts); occurrences(cleanup, count, fmt) contains fmt(id,k) for every k in 1..cleanup[id]/count (loop invariants over the map range), so with -count=1 every addressed slot is registered; examineFiles never removes or lists a path that is a registry key or a registered standalone file (postconditions protected, obsolete_sound), examineSnaps reports an id only if it is not registered (by construction of the branch) and drops entries only under update (no_drop_without_update). Not yet decided by contracts: that a rewrite preserves the bodies of the surviving entries (C10)."}
+P["C08"]={"level":"other","design_ref":"6 C08",
+ "funcs":skipf+["snaps.examineSnaps","snaps.examineFiles"],
+ "only":["snaps\\.(\\(\\*syncSlice\\)\\.append|trackSkip|Skip|Skipf|SkipNow|testSkipped|isFileSkipped)#","#vacuity"],
+ "assumptions":["the -run clause of the statement has no contract-level oracle (regular-expression semantics of the test runner): reMatch is uninterpreted; findings F5, K3, K4, K7 of DESIGN 7.2 concern it and are not decided by this check"],
+ "explanation":"Decided by contracts: the skip-wrapper clause. Skip/Skipf/SkipNow record t.Name() before delegating (list append contract), testSkipped returns true for exactly the recorded names and their descendants name+\"/\"... (postconditions skip_protects and only_skip_or_filter with desc(t,s) := t==s or s+\"/\" is a prefix of t, proved in native strings: a sibling sharing a prefix is not protected), and examineSnaps neither reports nor drops an entry for which testSkipped holds (branch condition). Files of skipped tests are not protected (known finding K9). The -run clause is NOT decided (no bounded stand-in built yet)."}
+P["C09"]={"level":"proof","design_ref":"6 C09",
+ "funcs":cleanf,
+ "only":["snaps\\.(examineFiles|examineSnaps|Clean|removeSnapshot|overwriteFile)#","#vacuity"],
+ "assumptions":["completeness of the report (every stale file of a visited directory is listed) depends on os.ReadDir returning the whole directory: not modelled"],
+ "explanation":"Clean deletes only in clean mode and touches nothing else: examineFiles removes a path only under shouldUpdate, only if it is unaddressed and has .snap in its base name, and never changes file contents (postconditions protected, report_only, content_kept); examineSnaps writes only files of the used list, nothing at all when neither update nor sort is set (noop, only_used), and drops a stale entry from a rewritten file only under update (loop invariant no_drop_without_update; finding F6 fixed); Clean passes shouldClean&&!isCI and Sort&&!isCI (ci_readonly, report_only, no_sort_no_clean, registered_files_kept, non_snap_files_kept)."}
+P["C10"]={"level":"other","design_ref":"6 C10",
+ "funcs":["snaps.examineSnaps","snaps.naturalSort","snaps.getTestID","snaps.isNumber","snaps.removeSnapshot","snaps.overwriteFile"],
+ "only":["snaps\\.(naturalSort|getTestID|isNumber|removeSnapshot|overwriteFile)#","#ensures#(noop|only_used)","no_drop_without_update","#vacuity"],
+ "assumptions":["slices.SortFunc returns a sorted permutation (assumed)"],
+ "explanation":"Decided so far: files needing neither pruning nor sorting are not written (postcondition noop), headers are recognised exactly by the [Test... - digits] shape (getTestID/isNumber against isTestHdr in native strings, including the slice-bounds obligation), entries are dropped only under update. NOT yet decided by contracts: that every surviving entry replays the value it held before (content equality of the rewrite), the permutation/ordering clause and idempotence; known finding K5."}
+P["C11"]={"level":"proof","design_ref":"6 C11",
+ "funcs":["snaps.baseCaller","snaps.constructFilename","snaps.snapshotPath","snaps.(*syncStandaloneRegistry).getTestID","snaps.MatchStandaloneJSON","snaps.(*Config).MatchStandaloneJSON"]+bodies,
+ "only":["snaps\\.(baseCaller|constructFilename|snapshotPath)#","getTestID#ensures","#ensures#(created|ordinal)","#pre\\(matchStandaloneJSON\\)","#vacuity"],
+ "assumptions":["path/filepath functions are uninterpreted pure functions (path cleaning not modelled)","runtime.Caller/FuncForPC give an abstract stack; real stacks (inlining, -trimpath file names, module depth, working directory) are not decided","names without `%` (known finding K8)"],
+ "explanation":"constructFilename and snapshotPath equal the path formula of the statement (proved in native SMT strings: Filename or test-file base name without extension, or the test name with / replaced by _ plus _%d for standalone, then .snap and Ext; directory = Dir if absolute or -trimpath, else the caller's directory joined with Dir); they read only the Config, the test name and the caller file. baseCaller returns the file of the first frame ending in _test.go above the skipped frames, or the frame below testing.tRunner, independent of how many other frames lie in between (loop invariant over an abstract stack). The standalone registry substitutes the ordinal into the template; the exported MatchStandaloneJSON wrappers default Ext to .json without touching the Config."}
 json.dump(P,open('/verif/contracts/properties.json','w'),indent=1)
 na={
- "C07":"in progress: Clean contracts not built yet",
- "C08":"in progress",
- "C09":"in progress",
- "C10":"in progress",
- "C11":"in progress",
  "C14":"in progress",
  "C15":"in progress",
  "C16":"in progress",
